@@ -128,6 +128,15 @@ CLAIMED = {
               'covered; divisors enumerated (12 quick / 96 thorough); two defects found and fixed'),
         technique='CBMC bounded model checking of dround kernels against a relational nearest-target reference',
         design='3/C16'),
+    'C06': dict(
+        text=('Bounded model checking of src/ddiff.c: precalc for every subset of the units w d H M S on a symbolic '
+              'seconds duration (sign flag, refined units in their natural ranges, coarsest carries the rest, components '
+              'recombine to the duration truncated to the finest unit), the year/quarter/month split of symbolic ymd '
+              'durations, and ltostr (text denotes the value, one minus sign, all widths and padding modes).'),
+        note=('duration magnitude < 2^24 s quick / 2^31 s thorough (64-bit division chains stall SAT beyond); the '
+              '__strfdtdur driver loop itself is covered for memory safety in C10; one defect found and fixed'),
+        technique='CBMC bounded model checking of the ddiff unit cascade and number printer',
+        design='3/C06'),
 }
 
 NA = {}
